@@ -57,6 +57,9 @@ def cases(draw, max_nodes):
                 if g.nodes[a]["k"] in ("unpack",) or (g.nodes[a]["k"] == "gather" and ("n" in g.nodes[a]["v"] or "u" in g.nodes[a]["v"])):
                     continue
                 cands.append([{"n": b}, {"n": a}])
+        for b in range(len(g.nodes)):  # a node made to depend on itself
+            if g.nodes[b]["k"] in ("call", "lit", "src"):
+                cands.append([{"n": b}, {"n": b}])
         if cands:
             spec["back"] = [draw(st.sampled_from(cands))]
             for nd in spec["nodes"]:
